@@ -178,3 +178,50 @@ def check(run, prog, tier):
             ok = sem or cv == 1
             run.ob("C19-c", "eventfd-write:%s" % f.name, ok, "writes %s to the eventfd counter%s" % (show(val) if val is not None else "?", "" if ok else " (not the constant 1; EFD_SEMAPHORE not set): two posts before the next read are added together"),
                    f.file, n.get("l"), f.name, what="%s encodes key/data in the eventfd counter: posts that pile up before the backend reads are merged into one event with a wrong key and data" % f.name)
+
+    # ---- C19-d a variable a thread root writes is not also written by another thread once that thread exists
+    run.rule("C19-d", "a non-atomic variable or field written by a thread root (timer thread, worker thread) is written by other threads only before the thread is created (the store precedes pthread_create in the same function) - two unsynchronised writers can overwrite each other's final value", 2)
+    thread_side = {}
+    for rname, rfs in roots.items():
+        for fname in cg.reachable_from(rfs):
+            thread_side[fname] = rname
+    shared_keys = {}
+    for rname, f, n, what, typ, gname, fieldkey in found:
+        if gname and gname in glob and (glob[gname].get("tls") or "atomic" in (glob[gname].get("t") or "") or "_Atomic" in (glob[gname].get("t") or "")):
+            continue
+        shared_keys[(gname, fieldkey)] = (rname, what, f.name)
+    nd = 0
+    for (gname, fieldkey), (rname, what, wfn) in sorted(shared_keys.items(), key=lambda x: str(x)):
+        # only variables some backend-side function touches at all
+        sites = []
+        for g in prog.functions():
+            if g.name in thread_side:
+                continue
+            if g.name not in backend_closure and not fieldkey:
+                continue
+            for b2, i2, n2 in g.nodes():
+                tgt = None
+                if n2.get("k") == "Asg":
+                    tgt = strip(n2["L"])
+                elif n2.get("k") == "Un" and n2.get("op") in ("++", "--"):
+                    tgt = strip(n2["e"])
+                if tgt is None:
+                    continue
+                if gname and tgt.get("k") == "Ref" and tgt.get("n") == gname and tgt.get("d") in ("global", "static"):
+                    sites.append((g, b2, i2, n2))
+                if fieldkey and tgt.get("k") == "Mem" and (tgt.get("rec"), tgt.get("f")) == fieldkey:
+                    sites.append((g, b2, i2, n2))
+        ordn = {}
+        for g, b2, i2, n2 in sorted(sites, key=lambda x: (x[0].name, x[3].get("l") or 0)):
+            nd += 1
+            run.saw(g)
+            o = ordn.get(g.name, 0)
+            ordn[g.name] = o + 1
+            creates = [(b3, i3) for b3, i3, n3 in g.calls() if n3.get("fn") in ("pthread_create", "platform_thread_create", "CreateThread", "_beginthreadex")]
+            before = bool(creates) and all(g.point_dominates((b2.id, i2), (cb3, ci3)) and not (cb3 in cfgq.reach_set(g, [b2.id]) and False) for cb3, ci3 in [(c[0].id, c[1]) for c in creates]) and not any(b2.id in cfgq.reach_set(g, g.blocks[c[0].id].live_succ()) or (b2.id == c[0].id and i2 > c[1]) for c in creates)
+            alloc_phase = not creates and any(n3.get("fn") in ("calloc", "malloc") for b3, i3, n3 in g.calls()) and g.name.endswith(("_create", "_init"))
+            inst = "two-writers:%s:%s:%d" % (what.replace(" ", ":"), g.name, o)
+            ok = before or alloc_phase
+            run.ob("C19-d", inst, ok, "%s is also stored by %s() at line %s %s" % (what, g.name, n2.get("l"), "before the thread is created (not yet shared)" if ok else "while the %s (%s) may be running and storing it too: whichever store lands last wins" % (rname, wfn)),
+                   g.file, n2.get("l"), g.name, what="%s is written by %s() and by the %s without synchronisation" % (what, g.name, rname))
+    run.extra["cross_thread_write_sites"] = nd
